@@ -2,6 +2,7 @@
 // halving reset. Purpose: the admission policy cannot panic or corrupt neighbouring counters whatever the access pattern.
 #![allow(unused_imports, unused_variables, dead_code, non_snake_case)]
 use vstd::prelude::*;
+use vstd::std_specs::iter::IteratorSpec;
 verus! {
 
 // target assumption: 64-bit usize (the sketch arithmetic is only bounded for this width)
@@ -83,6 +84,16 @@ pub proof fn lemma_pow2_64(n: usize)
     assert(n > 0 && (n & ((n - 1) as usize)) == 0 && n >= 64 ==> n % 64 == 0) by (bit_vector);
 }
 
+/// the aging step on one word of sixteen 4-bit counters
+pub open spec fn halved(w: u64) -> u64 { (w >> 1) & 0x7777_7777_7777_7777u64 }
+/// ... is the nibble-wise floor(counter / 2): counter k of the result is counter k of the input shifted right by one
+pub proof fn lemma_halved_nibbles(w: u64, off: u64)
+    requires off % 4 == 0, off <= 60
+    ensures ((halved(w) >> off) & 0xF) == (((w >> off) & 0xF) >> 1)
+{
+    assert(off % 4 == 0 && off <= 60 ==> (((((w >> 1) & 0x7777_7777_7777_7777u64) >> off) & 0xF) == (((w >> off) & 0xF) >> 1))) by (bit_vector);
+}
+
 // ---------------------------------------------------------------- functions under contract
 //@ impl crates/storage/src/tiny_lfu/sketch.rs :: impl BloomFilter
 //@ member new
@@ -107,10 +118,20 @@ pub proof fn lemma_pow2_64(n: usize)
 //@ head
         broadcast use lemma_mask_le;
 //@ member clear
-//@ body external
 //@ sig
         requires old(self).wf()
-        ensures final(self).wf(), final(self).size_mask == old(self).size_mask
+        ensures final(self).wf(), final(self).size_mask == old(self).size_mask,
+            // the filter is empty afterwards: every word is zero
+            forall|i: int| 0 <= i < final(self).bitmap@.len() ==> final(self).bitmap@[i] == 0
+//@ loop 0 iter __it
+//@ loop 0 itercall
+//@ loop 0 inv
+            invariant
+                self.size_mask == old(self).size_mask,
+                __it.snapshot@.remaining().len() == old(self).bitmap@.len(),
+                final(self).bitmap@.len() == old(self).bitmap@.len(),
+                forall|j: int| 0 <= j < __it.snapshot@.remaining().len() ==> *final(#[trigger] __it.snapshot@.remaining()[j]) == final(self).bitmap@[j],
+                forall|j: int| 0 <= j < __it.index@ ==> *final(#[trigger] __it.snapshot@.remaining()[j]) == 0,
 //@ end
 
 //@ impl crates/storage/src/tiny_lfu/sketch.rs :: impl CountMinSketch
@@ -149,10 +170,21 @@ pub proof fn lemma_pow2_64(n: usize)
                 assert(ri * wi <= 3 * wi) by (nonlinear_arith) requires ri <= 3, wi >= 0;
             }
 //@ member reset
-//@ body external
 //@ sig
         requires old(self).wf()
-        ensures final(self).wf(), final(self).mask == old(self).mask
+        ensures final(self).wf(), final(self).mask == old(self).mask,
+            // every word is halved nibble-wise: each 4-bit counter becomes floor(counter / 2), no bit crosses into a neighbour
+            forall|i: int| 0 <= i < final(self).table@.len() ==> final(self).table@[i] == halved(old(self).table@[i])
+//@ loop 0 iter __it
+//@ loop 0 itercall
+//@ loop 0 inv
+            invariant
+                self.mask == old(self).mask,
+                __it.snapshot@.remaining().len() == old(self).table@.len(),
+                final(self).table@.len() == old(self).table@.len(),
+                forall|j: int| 0 <= j < __it.snapshot@.remaining().len() ==> *(#[trigger] __it.snapshot@.remaining()[j]) == old(self).table@[j],
+                forall|j: int| 0 <= j < __it.snapshot@.remaining().len() ==> *final(#[trigger] __it.snapshot@.remaining()[j]) == final(self).table@[j],
+                forall|j: int| 0 <= j < __it.index@ ==> *final(#[trigger] __it.snapshot@.remaining()[j]) == halved(old(self).table@[j]),
 //@ end
 
 //@ impl crates/storage/src/tiny_lfu/sketch.rs :: impl Sketch
